@@ -592,6 +592,12 @@ func sessionChargingReservation(
 			UserName:       datatype.OctetString(self.Name),
 		}
 
+		// a usage report need not ask for further units
+		var requestedVolume uint32
+		if unitUsage.RequestedUnit != nil {
+			requestedVolume = uint32(unitUsage.RequestedUnit.TotalVolume)
+		}
+
 		switch ue.RatingType[rg] {
 		case charging_datatype.REQ_SUBTYPE_RESERVE:
 			var requestedQuota uint64
@@ -599,7 +605,7 @@ func sessionChargingReservation(
 			ue.UnitCost[rg] = getUnitCost(ue, rg, sur)
 
 			usedQuota := uint64(totalUsedUnit * ue.UnitCost[rg])
-			requestedQuota = uint64(uint32(unitUsage.RequestedUnit.TotalVolume) * ue.UnitCost[rg])
+			requestedQuota = uint64(requestedVolume * ue.UnitCost[rg])
 			ue.ReservedQuota[rg] -= int64(usedQuota)
 			NeedReserveQuota := !(ue.ReservedQuota[rg] > 0)
 
@@ -650,7 +656,7 @@ func sessionChargingReservation(
 
 			ue.UnitCost[rg] = getUnitCost(ue, rg, sur)
 
-			grantedUnit := min(uint32(serviceUsageRsp.ServiceRating.AllowedUnits), uint32(unitUsage.RequestedUnit.TotalVolume))
+			grantedUnit := min(uint32(serviceUsageRsp.ServiceRating.AllowedUnits), requestedVolume)
 
 			if ue.RatingType[rg] == charging_datatype.REQ_SUBTYPE_RESERVE {
 				unitInformation.Triggers = append(unitInformation.Triggers,
